@@ -4,6 +4,7 @@ import GuppyVerif.Util.Sexp
     Requests (one S-expression per line):
       `(wrap W (text) (initial) (subsequent))`
       `(snip (content) (l c l c) LABEL MAXLINENO PRIMARY PREFIX)`      LABEL = `none` | `(codes)`
+      `(tospan ((line) (line) ...) (lineno col_offset end_lineno end_col_offset))`  -> `span l c l c`
       `(diag (file) (content) (LEVEL SPAN (title) LABEL MESSAGE (CHILD ...)))`
           SPAN = `none` | `(l c l c)`; CHILD = `(LEVEL SPAN LABEL MESSAGE)`
     Replies: `ok (codes) (codes) ...` one list per rendered line, or `err assertion|internal|value`. -/
@@ -62,6 +63,14 @@ def handle (line : String) : String :=
     | some content, some sp, some lb, some ml, some pr, some pf =>
       showRes (renderSnippet (splitlines content) sp lb ml (pr != 0) pf)
     | _, _, _, _, _, _ => "bad-op"
+  | some (.list [.atom "tospan", .list ls, .list [a, b, c, d]]) =>
+    match ls.mapM str?, a.asNat?, b.asNat?, c.asNat?, d.asNat? with
+    | some lines, some a, some b, some c, some d =>
+      let s := toSpan lines a b c d
+      -- Span.__post_init__: start > end raises InternalGuppyError
+      if s.stop.line < s.start.line || (s.stop.line == s.start.line && s.stop.col < s.start.col) then "err internal"
+      else s!"span {s.start.line} {s.start.col} {s.stop.line} {s.stop.col}"
+    | _, _, _, _, _ => "bad-op"
   | some (.list [.atom "diag", file, content, d]) =>
     match str? file, str? content, diag? d with
     | some file, some content, some d => showRes (renderDiagnostic file (splitlines content) d)
